@@ -412,6 +412,19 @@ class NameConverter(ast.NodeTransformer):
             return self.generic_visit(node)
 
         cn = node.func.id == self.call_next_sym
+
+        if not cn and any(
+            kw.arg is None
+            or any(
+                isinstance(pos, int)
+                for pos in self.analysis.name_to_positions.get(kw.arg, ())
+            )
+            for kw in node.keywords
+        ):
+            # recurse(**kwargs), or a positional parameter given by keyword:
+            # the inlined lookup cannot key those, so make an ordinary call
+            # to the function, which binds them like any other call.
+            return self.generic_visit(node)
         tmp = f"__TMP{next(self.count)}_"
 
         def _make_lookup_call(key, arg):
